@@ -96,6 +96,7 @@ func checkC12(w *World, r *Report) {
 	r.NotDecided = []string{"time / allocation bounds as numbers", "miekg/dns message parsing", "unrecoverable runtime errors (stack overflow, out of memory)"}
 	r.Trusted = []string{"miekg/dns v1.1.34 does not recover panics in handlers and accepts only messages with exactly one question (DefaultMsgAcceptFunc)", "recover() in a deferred closure stops a panic raised later in the same goroutine"}
 	r.Rule("R12.1", "panic containment at both untrusted entry points", 2)
+	r.Rule("R12.8", "a query cannot disturb an established session unless it passed the owner check (handlers touch session state only on the err == nil edge of validateAndGetUser)", 4)
 	r.Rule("R12.7", "a recovered panic is reported as an error by the entry point that returns one", 1)
 	r.Rule("R12.2", "command table has no callable nil", 2)
 	r.Rule("R12.3", "client-requested sizes are bounded before use", 2)
@@ -254,6 +255,7 @@ func checkC12(w *World, r *Report) {
 
 	// ---------------------------------------------------------------- R12.2
 	c12CommandTable(w, r)
+	ruleHandlersGuarded(w, r, "R12.8")
 
 	// ---------------------------------------------------------------- R12.3
 	c12Sizes(w, r)
